@@ -158,6 +158,8 @@ def gen_weight(r, mode):
         return None
     if mode == "real":
         return r.pick([1, 2, 3, 5])
+    if mode == "zero":
+        return r.pick([0, 0, 1, 2])
     return r.pick([None, 1, 2, 3])
 
 
@@ -178,7 +180,7 @@ def gen_mutations(r, names, nops, wmode="mixed", collide=35, allow_new_from=True
     ops, existing = [], []
     for _ in range(nops):
         k = r.below(100)
-        if wmode == "real" and (62 <= k < 72 or 86 <= k < 93):
+        if wmode in ("real", "zero") and (62 <= k < 72 or 86 <= k < 93):
             k = 30  # tuple calls add unweighted edges: not in a uniformly weighted history
         if k < 14:
             ops.append(("add_node", (r.pick(names), r.pick([None, r.below(50)]))))
@@ -237,7 +239,9 @@ def query_battery(r, names, full=True):
         qs.append(("q", "breadth_first_search", (u,)))
     for i in range(len(names) + 2):
         qs.append(("q", "get_node_by_index", (i,)))
-    for s in subsets(names, absent, r, 4 if full else 1):
+    # lists with REPEATED names (longer than the node list): a slice is not a set
+    reps = [[names[0], names[0]], list(names) + [names[0]], [names[-1]] * (len(names) + 1)]
+    for s in subsets(names, absent, r, 4 if full else 1) + reps:
         for q in ("get_edges_for_nodes", "get_in_edges_for_nodes", "get_out_edges_for_nodes", "has_nodes"):
             qs.append(("q", q, tuple(s)))
     return qs
@@ -302,7 +306,7 @@ def gen_cases(kind, seed, n):
             for _ in range(2):
                 a, b = r2.pick(pairs)
                 ops.append(("add_edge", ((b, a) if r2.below(2) else (a, b)) + (1 + r2.below(3), None)))
-            ops += [("q", "alg_sssp", [x, 1]) for x in big[:3]] + [("q", "alg_cc", [1]), ("q", "alg_bc", [1])]
+            ops += [("q", "alg_sssp", [x, 1, k % 3]) for k, x in enumerate(big[:3])] + [("q", "alg_cc", [1]), ("q", "alg_bc", [1])]
             cases.append({"id": "h%d" % i, "spec": sp, "snap_each": True, "ops": ops, "wmode": wmode})
         elif kind == "c03" and i % 25 == 7:
             # weights that SUM to the number of edges without being 1 (halves of 1,1,3,3 through the dyadic scale)
@@ -310,14 +314,18 @@ def gen_cases(kind, seed, n):
             a, b, c_, d = names[:4]
             es = r2.shuffle([(a, b, 1, None), (b, c_, 1, None), (a, c_, 3, None), (c_, d, 3, None)])
             ops = [("add_nodes", [(x, None) for x in r2.shuffle([a, b, c_, d])]), ("add_edges", es)]
-            ops += [("q", "alg_sssp", [x, 1]) for x in (a, b, c_, d)] + [("q", "alg_cc", [1]), ("q", "alg_bc", [1])]
+            ops += [("q", "alg_sssp", [x, 1, k % 3]) for k, x in enumerate((a, b, c_, d))] + [("q", "alg_cc", [1]), ("q", "alg_bc", [1])]
             cases.append({"id": "h%d" % i, "spec": sp, "snap_each": True, "ops": ops, "wmode": "real", "wscale": -1})
         elif kind == "c03":
             wmode = "nan" if r.below(4) == 0 else "real"
+            if i % 10 == 4:
+                wmode = "zero"      # uniformly weighted with zero-weight edges (non-negative weights)
             ops = gen_mutations(r, names, 2 + r.below(9), wmode=wmode, collide=60)
             # the consequence clause: what the algorithms report for the graph this history produced
-            wf = 1 if wmode == "real" else 0
-            ops = ops + [("q", "alg_sssp", [x, wf]) for x in names] + [("q", "alg_cc", [wf]), ("q", "alg_bc", [wf])]
+            wf = 1 if wmode in ("real", "zero") else 0
+            ops = ops + [("q", "alg_sssp", [x, wf, k % 3]) for k, x in enumerate(names)]
+            if wmode != "zero":     # closeness / betweenness are defined for positive weights
+                ops += [("q", "alg_cc", [wf]), ("q", "alg_bc", [wf])]
             cases.append(scaled({"id": "h%d" % i, "spec": sp, "snap_each": True, "ops": ops, "wmode": wmode}, wmode))
         elif kind == "c09":
             wmode = r.pick(["nan", "real", "real"])
